@@ -148,7 +148,9 @@ private:
         if (cached_serialization_.size() != total_sz) {
             cached_serialization_ = cached_.serialize();
         }
-        std::memcpy(buffer, &*cached_serialization_.begin(), cached_serialization_.size());
+        if (!cached_serialization_.empty()) {
+            std::memcpy(buffer, &*cached_serialization_.begin(), cached_serialization_.size());
+        }
     }
 
     cached_type cached_;
